@@ -75,6 +75,9 @@ func (inputs *ReusableWorkflowMetadataInputs) UnmarshalYAML(n *yaml.Node) error 
 	md := make(ReusableWorkflowMetadataInputs, len(n.Content)/2)
 	for i := 0; i < len(n.Content); i += 2 {
 		k, v := n.Content[i], n.Content[i+1]
+		if _, ok := md[strings.ToLower(k.Value)]; ok {
+			continue // Keys are case insensitive. The first definition is used like the workflow parser does
+		}
 
 		var m ReusableWorkflowMetadataInput
 		if err := v.Decode(&m); err != nil {
@@ -114,6 +117,9 @@ func (secrets *ReusableWorkflowMetadataSecrets) UnmarshalYAML(n *yaml.Node) erro
 	md := make(ReusableWorkflowMetadataSecrets, len(n.Content)/2)
 	for i := 0; i < len(n.Content); i += 2 {
 		k, v := n.Content[i], n.Content[i+1]
+		if _, ok := md[strings.ToLower(k.Value)]; ok {
+			continue // Keys are case insensitive. The first definition is used like the workflow parser does
+		}
 
 		var s ReusableWorkflowMetadataSecret
 		if err := v.Decode(&s); err != nil {
@@ -147,6 +153,9 @@ func (outputs *ReusableWorkflowMetadataOutputs) UnmarshalYAML(n *yaml.Node) erro
 	md := make(ReusableWorkflowMetadataOutputs, len(n.Content)/2)
 	for i := 0; i < len(n.Content); i += 2 {
 		k := n.Content[i]
+		if _, ok := md[strings.ToLower(k.Value)]; ok {
+			continue // Keys are case insensitive. The first definition is used like the workflow parser does
+		}
 		md[strings.ToLower(k.Value)] = &ReusableWorkflowMetadataOutput{
 			Name: k.Value,
 		}
